@@ -1,9 +1,27 @@
 (* C01 — Message round-trip fidelity for every size, chunking and compression setting.
    Statements only; proofs in Proofs/TrimWindowP.v, Proofs/MaskP.v, Proofs/WriterP.v. *)
-From Coq Require Import List NArith Arith.
+From Coq Require Import List NArith ZArith Arith.
 From WS Require Import Base.Words Model.Mask Model.Frame Model.Proto Model.Writer Model.RefDecoder Model.Window
-  Proofs.MaskP Proofs.WriterP Proofs.TrimWindowP.
+  Model.Reader Model.Script Proofs.MaskP Proofs.WriterP Proofs.TrimWindowP Proofs.RoundTripP.
 Import ListNotations.
+Close Scope N_scope. Close Scope Z_scope. Open Scope nat_scope.
+
+(* END TO END (uncompressed): every message written on one endpoint — by Write, or by Writer with ANY sequence of chunked
+   writes followed by Close — is received by the peer endpoint as exactly one message of the same type with a byte-identical
+   payload, in the order written: both directions (r = Client or Server), every size and chunking (all three length
+   encodings, empty chunks, empty messages), every mask-key supply, every sequence of positive read-buffer sizes, whatever
+   the transport does after the last byte.  Pings/Pongs interleaved between messages are answered / noted in order.
+   (Compressed messages: tied by the correspondence; the compressor and inflater are oracles.) *)
+Theorem C01_roundtrip_uncompressed : forall keys dz (r : role) thr0 prog sizes inflate e,
+  (forall i, wf_key (keys i)) -> Forall wf_dc_op prog -> ends_with_data prog ->
+  length sizes = count_data prog -> Forall (fun n => 0 < n)%nat sizes ->
+  let wcfg := {| wc_role := r; wc_co := None; wc_thr0 := thr0 |} in
+  let rcfg := {| rc_role := peer r; rc_co := None |} in
+  let res := run rcfg inflate (-1)%Z (w_wire (w_run keys dz wcfg prog)) e (read_ops sizes) in
+  fst res = delivered prog /\ r_replies (snd res) = pongs_due prog /\ r_pongs (snd res) = pong_notes prog /\
+  r_inq (snd res) = [] /\ r_closed (snd res) = false.
+Proof. exact roundtrip_uncompressed_ctl. Qed.
+Print Assumptions C01_roundtrip_uncompressed.
 
 (* sender: whatever the program, what is on the wire is parsed back by the specification parser to exactly the
    frames written (payload bytes identical, in order) — every size, chunking, role, option set, threshold *)
